@@ -184,9 +184,24 @@ def run(prog, ctx):
                     if bad:
                         break
                 law("C15.A", "add", bad is None, "Centroid::add is not the weighted mean / weight sum: %s" % bad, add.id)
+                # two centroids of the same mean merge to exactly that mean (otherwise a run of ties drifts outside [min, max] and
+                # out of order): exact, with the real finiteness test
+                n_a += 1
+                bad = None
+                for _ in range(400):
+                    m = rnd.choice([0.1, 19.99, -3.3, 1e300, rnd.uniform(-1e6, 1e6), rnd.uniform(-1, 1)])
+                    w1, w2 = rnd.choice([1, 2, 3, 7, 9, 1000, 12345]), rnd.choice([1, 3, 5, 77, 4097])
+                    env = {"@prog": prog, "@ieee": True, "self.mean": m, "self.weight": w1, "other.mean": m, "other.weight": w2,
+                           "@fn:get": lambda x: x, "@fn:is_finite": lambda x: math.isfinite(x), "@fn:mul_add": lambda a, b, c: a * b + c,
+                           "@fn:checked_add": lambda a, b: a + b, "@fn:expect": lambda a, *r: a}
+                    gm = formula.evaluate(em, env)
+                    if gm != m:
+                        bad = "(%r,w%d)+(%r,w%d) gives mean %r" % (m, w1, m, w2, gm)
+                        break
+                law("C15.A", "ties", bad is None, "Centroid::add of two centroids with the same mean does not return exactly that mean: %s" % bad, add.id)
             except formula.Uneval as u:
                 law("C15.A", "add", None, "Centroid::add not evaluable: %s" % u)
-    res.rule("C15.A", n_a, 1, "Centroid::add")
+    res.rule("C15.A", n_a, 2, "Centroid::add")
 
     # ---------------- C15.O sorted before the merge loop
     n_o = 0
